@@ -173,7 +173,11 @@ class Type:
         else:
             raise NotImplementedError((self.kind, other.kind))
         # TODO: array type support
-        bits = max([t.bits for t in [self, other] if t.kind == kind and t.bits is not None] or [None])
+        bits_lst = [t.bits for t in [self, other] if t.kind == kind and t.bits is not None]
+        if kind == "complex":
+            # a float operand contributes a complex type of twice its width (float64 with complex64 is complex128)
+            bits_lst += [2 * t.bits for t in [self, other] if t.kind == "float" and t.bits is not None]
+        bits = max(bits_lst or [None])
         return type(self)(self.context, kind, bits)
 
     @property
